@@ -86,6 +86,11 @@ def main(argv=None):
     if budget:
         budget *= float(os.environ.get("VERIF_BUDGET_SCALE", "1") or 1)  # (for runs with fewer workers than cores)
     deadline = t0 + budget if budget else None
+    if budget and tier == "thorough" and jobs:
+        # every selected job gets its turn: no job may use more than its fair share of the tier's budget
+        fair = budget * max(1, a.workers) / len(jobs)
+        for j in jobs:
+            j.timeout = max(45, min(j.timeout, int(fair)))
 
     def progress(job, res):
         if os.environ.get("VERIF_VERBOSE"):
